@@ -150,6 +150,14 @@ pub trait SmartPtrSerialize<T> {
     }
 }
 
+/// Reservation for a collection whose element count was read from the input: never
+/// reserve more than a few thousand elements up front (the collection still grows to the real
+/// size), so that a corrupted count cannot drive the allocation.
+#[inline]
+pub(crate) fn cautious_capacity(len: usize) -> usize {
+    len.min(4096)
+}
+
 /// Marker trait for types that are serializable
 pub trait SerializableType {
     fn serialize<O: DataOutput>(&self, output: &mut O) -> Result<()>;
@@ -551,7 +559,7 @@ impl<T: SerializableType> SerializableType for Vec<T> {
     
     fn deserialize<I: DataInput>(input: &mut I) -> Result<Self> {
         let len = input.read_u32()? as usize;
-        let mut vec = Vec::with_capacity(len);
+        let mut vec = Vec::with_capacity(cautious_capacity(len));
         for _ in 0..len {
             vec.push(T::deserialize(input)?);
         }
